@@ -248,3 +248,433 @@ def _stmt_lists(fn):
             for h in n.handlers:
                 out.append(h.body)
     return out
+
+
+# ---------------------------------------------------------------- merging split locals (alpha-equivalence up to def-use chains)
+
+
+def _use_signature(fn):
+    """[(cfg node id, index of the read, {definition sites reaching it})] for every read of a local name"""
+    from .cfg import CFG
+    from .dataflow import ReachingDefs
+
+    g = CFG(fn)
+    rd = ReachingDefs(g)
+    local = {d.name for n in g.live for d in rd.gen[n.id]} | set(rd.params)
+    out = []
+    for n in sorted(g.live, key=lambda x: x.id):
+        i = 0
+        for x in n.walk():
+            if isinstance(x, ast.Name) and x.id in local:
+                is_use = isinstance(x.ctx, (ast.Load, ast.Del)) or isinstance(getattr(x, "_parent", None), ast.AugAssign)
+                if isinstance(x.ctx, ast.Store) and n.kind == "stmt" and isinstance(n.ast, ast.AugAssign) and n.ast.target is x:
+                    is_use = True
+                if is_use:
+                    out.append((n.id, n.kind, i, frozenset((d.node.id if d.node is not None else -1, d.kind) for d in rd.defs_at(x.id, n))))
+                i += 1
+    return out
+
+
+def names_in_nested_scopes(fn) -> set:
+    """free names of the nested functions / lambdas / classes of fn (names they may share with fn's locals)"""
+    out = set()
+
+    def free(scope):
+        bound = set()
+        if not isinstance(scope, ast.ClassDef):
+            a = scope.args
+            bound |= {x.arg for x in a.posonlyargs + a.args + a.kwonlyargs}
+            if a.vararg:
+                bound.add(a.vararg.arg)
+            if a.kwarg:
+                bound.add(a.kwarg.arg)
+        refs = set()
+        nonlocal_ = set()
+        for y in ast.walk(scope):
+            if isinstance(y, (ast.Nonlocal, ast.Global)):
+                nonlocal_ |= set(y.names)
+            elif isinstance(y, ast.Name):
+                refs.add(y.id)
+                if isinstance(y.ctx, ast.Store) and not isinstance(scope, ast.Lambda):
+                    bound.add(y.id)
+        return (refs - bound) | nonlocal_
+
+    def visit(node):
+        for x in ast.iter_child_nodes(node):
+            if isinstance(x, (ast.FunctionDef, ast.AsyncFunctionDef, ast.Lambda, ast.ClassDef)):
+                out.update(free(x))
+            else:
+                visit(x)
+
+    visit(fn)
+    return out
+
+
+def comprehension_vars(fn) -> set:
+    out = set()
+
+    def visit(node):
+        for x in ast.iter_child_nodes(node):
+            if isinstance(x, (ast.FunctionDef, ast.AsyncFunctionDef, ast.Lambda, ast.ClassDef)):
+                continue
+            if isinstance(x, ast.comprehension):
+                for y in ast.walk(x.target):
+                    if isinstance(y, ast.Name):
+                        out.add(y.id)
+            visit(x)
+
+    visit(fn)
+    return out
+
+
+def same_def_use(fn_a, fn_b) -> bool:
+    """True when the two function bodies (same shape, different local names) have identical def-use chains"""
+    try:
+        return _use_signature(fn_a) == _use_signature(fn_b)
+    except Exception:
+        return False
+
+
+# ---------------------------------------------------------------- conditional expressions in positive form
+
+
+def positive_ifexps(fn) -> int:
+    """`a if not c else b` -> `b if c else a` (and the comparison forms of cfg.normalise_test): the polarity of a written test is not semantics"""
+    from .cfg import normalise_test
+
+    n = 0
+    for x in ast.walk(fn):
+        if isinstance(x, ast.IfExp):
+            t = x.test
+            flip = False
+            while isinstance(t, ast.UnaryOp) and isinstance(t.op, ast.Not):
+                t = t.operand
+                flip = not flip
+            if not isinstance(t, ast.BoolOp):
+                t2, f2 = normalise_test(t)
+                if f2:
+                    flip = not flip
+                t = t2
+            elif flip:
+                # not (a and b): keep the written form
+                continue
+            if t is not x.test:
+                x.test = t
+                if flip:
+                    x.body, x.orelse = x.orelse, x.body
+                n += 1
+    return n
+
+
+# ---------------------------------------------------------------- loops over literal tables are unrolled; update(<comprehension>) is a loop of add
+
+
+def _simple_value(e, assigned) -> bool:
+    if isinstance(e, ast.Constant):
+        return True
+    while isinstance(e, ast.Attribute):
+        e = e.value
+    return isinstance(e, ast.Name) and e.id not in assigned
+
+
+def _fold_fstrings(node):
+    for x in ast.walk(node):
+        if isinstance(x, ast.JoinedStr):
+            out = []
+            for v in x.values:
+                if isinstance(v, ast.FormattedValue) and isinstance(v.value, ast.Constant) and isinstance(v.value.value, str) and v.conversion == -1 and v.format_spec is None:
+                    v = ast.Constant(value=v.value.value)
+                if isinstance(v, ast.Constant) and out and isinstance(out[-1], ast.Constant):
+                    out[-1] = ast.Constant(value=out[-1].value + v.value)
+                else:
+                    out.append(v)
+            x.values = out
+
+
+def _stmt_blocks(fn):
+    """every statement list of the function (not of nested definitions)"""
+    out = []
+
+    def visit(body):
+        out.append(body)
+        for s in body:
+            if isinstance(s, FUNC_TYPES + (ast.ClassDef,)):
+                continue
+            for field in ("body", "orelse", "finalbody"):
+                sub = getattr(s, field, None)
+                if isinstance(sub, list) and sub and isinstance(sub[0], ast.stmt):
+                    visit(sub)
+            if isinstance(s, ast.Try):
+                for h in s.handlers:
+                    visit(h.body)
+            if hasattr(ast, "Match") and isinstance(s, ast.Match):
+                for c in s.cases:
+                    visit(c.body)
+
+    visit(fn.body)
+    return out
+
+
+def _loop_level_jumps(loop) -> bool:
+    """break / continue that belong to this loop"""
+    def visit(body):
+        for s in body:
+            if isinstance(s, (ast.Break, ast.Continue)):
+                return True
+            if isinstance(s, (ast.For, ast.AsyncFor, ast.While) + FUNC_TYPES + (ast.ClassDef,)):
+                continue
+            for field in ("body", "orelse", "finalbody"):
+                sub = getattr(s, field, None)
+                if isinstance(sub, list) and sub and isinstance(sub[0], ast.stmt) and visit(sub):
+                    return True
+            if isinstance(s, ast.Try):
+                for h in s.handlers:
+                    if visit(h.body):
+                        return True
+        return False
+
+    return visit(loop.body)
+
+
+def unroll_literal_loops(fn) -> int:
+    count = 0
+    for body in _stmt_blocks(fn):
+        i = 0
+        while i < len(body):
+            s = body[i]
+            i += 1
+            if not (isinstance(s, ast.For) and not s.orelse and isinstance(s.iter, (ast.Tuple, ast.List)) and 1 <= len(s.iter.elts) <= 8):
+                continue
+            names = [s.target.id] if isinstance(s.target, ast.Name) else (
+                [e.id for e in s.target.elts] if isinstance(s.target, (ast.Tuple, ast.List)) and all(isinstance(e, ast.Name) for e in s.target.elts) else None)
+            if not names or _loop_level_jumps(s):
+                continue
+            assigned = {n.id for b in s.body for n in ast.walk(b) if isinstance(n, ast.Name) and isinstance(n.ctx, (ast.Store, ast.Del))}
+            if set(names) & assigned:
+                continue
+            # the loop variables must not be read outside the loop
+            inside = {id(n) for n in ast.walk(s)}
+            if any(isinstance(n, ast.Name) and n.id in names and id(n) not in inside for n in ast.walk(fn)):
+                continue
+            rows = []
+            for e in s.iter.elts:
+                if isinstance(s.target, ast.Name):
+                    row = [e]
+                elif isinstance(e, (ast.Tuple, ast.List)) and len(e.elts) == len(names):
+                    row = list(e.elts)
+                else:
+                    row = None
+                if row is None or not all(_simple_value(v, assigned) for v in row):
+                    rows = None
+                    break
+                rows.append(row)
+            if not rows:
+                continue
+            new = []
+            for row in rows:
+                env = dict(zip(names, row))
+
+                class S(ast.NodeTransformer):
+                    def visit_Name(self, n):
+                        if n.id in env and isinstance(n.ctx, ast.Load):
+                            return ast.copy_location(ast_copy(env[n.id]), n)
+                        return n
+
+                for b in s.body:
+                    c = S().visit(ast_copy(b))
+                    _fold_fstrings(c)
+                    ast.fix_missing_locations(c)
+                    new.append(c)
+            body[i - 1:i] = new
+            i = i - 1 + len(new)
+            count += 1
+    return count
+
+
+def updates_to_loops(fn) -> int:
+    """`xs.update(e for t in it if c)` / `xs.extend(...)`  ->  `for t in it: if c: xs.add(e)` (comprehension variables renamed when they
+    would capture a local of the function)"""
+    count = 0
+    used = {n.id for n in ast.walk(fn) if isinstance(n, ast.Name)}
+    for body in _stmt_blocks(fn):
+        for i, s in enumerate(body):
+            if not (isinstance(s, ast.Expr) and isinstance(s.value, ast.Call) and isinstance(s.value.func, ast.Attribute) and s.value.func.attr in ("update", "extend")
+                    and isinstance(s.value.func.value, ast.Name) and len(s.value.args) == 1 and not s.value.keywords):
+                continue
+            comp = s.value.args[0]
+            if not isinstance(comp, (ast.GeneratorExp, ast.SetComp, ast.ListComp)) or len(comp.generators) != 1 or comp.generators[0].is_async:
+                continue
+            gen = comp.generators[0]
+            inside = {id(n) for n in ast.walk(comp)}
+            tnames = {n.id for n in ast.walk(gen.target) if isinstance(n, ast.Name)}
+            outside = {n.id for n in ast.walk(fn) if isinstance(n, ast.Name) and id(n) not in inside}
+            ren = {t: f"__c{count}_{t}" for t in tnames if t in outside}
+            comp2 = ast_copy(comp)
+            gen = comp2.generators[0]
+            for n in ast.walk(comp2):
+                if isinstance(n, ast.Name) and n.id in ren and n is not None:
+                    n.id = ren[n.id]
+            # the iterable is evaluated outside the comprehension scope: keep its names
+            gen.iter = ast_copy(comp.generators[0].iter)
+            call = ast.Expr(value=ast.Call(func=ast.Attribute(value=ast_copy(s.value.func.value), attr="add" if s.value.func.attr == "update" else "append", ctx=ast.Load()), args=[comp2.elt], keywords=[]))
+            inner = [call]
+            for c in reversed(gen.ifs):
+                inner = [ast.If(test=c, body=inner, orelse=[])]
+            loop = ast.For(target=gen.target, iter=gen.iter, body=inner, orelse=[], type_comment=None)
+            for n in ast.walk(loop.target):
+                if isinstance(n, ast.Name):
+                    n.ctx = ast.Store()
+            ast.copy_location(loop, s)
+            ast.fix_missing_locations(loop)
+            body[i] = loop
+            count += 1
+    return count
+
+
+# ---------------------------------------------------------------- single-use temporaries
+
+
+def _eval_order(e):
+    """sub-expressions of `e` in the order in which their evaluation completes (post-order, Python's left-to-right rule);
+    yields (node, conditional?) where conditional marks nodes that may not be evaluated or evaluated several times"""
+    def rec(n, cond):
+        if isinstance(n, (ast.Lambda, ast.ListComp, ast.SetComp, ast.DictComp, ast.GeneratorExp)):
+            for x in ast.walk(n):
+                if x is not n:
+                    yield x, True
+            yield n, cond
+            return
+        if isinstance(n, ast.BoolOp):
+            for i, v in enumerate(n.values):
+                yield from rec(v, cond or i > 0)
+            yield n, cond
+            return
+        if isinstance(n, ast.IfExp):
+            yield from rec(n.test, cond)
+            yield from rec(n.body, True)
+            yield from rec(n.orelse, True)
+            yield n, cond
+            return
+        if isinstance(n, ast.Compare) and len(n.ops) > 1:
+            yield from rec(n.left, cond)
+            for i, v in enumerate(n.comparators):
+                yield from rec(v, cond or i > 0)
+            yield n, cond
+            return
+        if isinstance(n, ast.Dict):
+            for k, v in zip(n.keys, n.values):
+                if k is not None:
+                    yield from rec(k, cond)
+                yield from rec(v, cond)
+            yield n, cond
+            return
+        for c in ast.iter_child_nodes(n):
+            if isinstance(c, (ast.expr_context, ast.operator, ast.unaryop, ast.cmpop, ast.boolop)):
+                continue
+            yield from rec(c, cond)
+        yield n, cond
+
+    yield from rec(e, False)
+
+
+def _header_exprs(s):
+    """expressions of a statement evaluated exactly once, first, when the statement is reached -- in evaluation order"""
+    if isinstance(s, ast.Assign):
+        return [s.value] + [t for t in s.targets if not isinstance(t, ast.Name)]
+    if isinstance(s, ast.AnnAssign) and s.value is not None and isinstance(s.target, ast.Name):
+        return [s.value]
+    if isinstance(s, ast.AugAssign) and isinstance(s.target, ast.Name):
+        return [s.value]
+    if isinstance(s, (ast.Expr, ast.Return)) and s.value is not None:
+        return [s.value]
+    if isinstance(s, ast.If):
+        return [s.test]
+    if isinstance(s, ast.For):
+        return [s.iter]
+    if isinstance(s, (ast.With, ast.AsyncWith)):
+        return [s.items[0].context_expr]
+    if isinstance(s, ast.Raise) and s.exc is not None:
+        return [s.exc]
+    if isinstance(s, ast.Assert):
+        return [s.test]
+    return []
+
+
+_PURE_BEFORE = (ast.Name, ast.Constant, ast.Attribute, ast.expr_context, ast.keyword, ast.FormattedValue, ast.JoinedStr, ast.Tuple, ast.List)
+
+
+def inline_single_use_temps(fn) -> List[str]:
+    """t = e ; S(t)  ->  S(e)   when t is written once, read once (in the part of the next statement S that is evaluated first and exactly once)
+    and nothing with an effect is evaluated in S before the read"""
+    done = []
+    for _ in range(8):
+        changed = False
+        loads: Dict[str, int] = {}
+        stores: Dict[str, int] = {}
+        for n in ast.walk(fn):
+            if isinstance(n, ast.Name):
+                if isinstance(n.ctx, ast.Load):
+                    loads[n.id] = loads.get(n.id, 0) + 1
+                else:
+                    stores[n.id] = stores.get(n.id, 0) + 1
+            elif isinstance(n, (ast.Global, ast.Nonlocal)):
+                for x in n.names:
+                    stores[x] = stores.get(x, 0) + 2
+        a = fn.args
+        params = {x.arg for x in a.posonlyargs + a.args + a.kwonlyargs} | ({a.vararg.arg} if a.vararg else set()) | ({a.kwarg.arg} if a.kwarg else set())
+        for body in _stmt_blocks(fn):
+            i = len(body) - 2
+            while i >= 0:
+                s, nxt = body[i], body[i + 1]
+                i -= 1
+                if not (isinstance(s, ast.Assign) and len(s.targets) == 1 and isinstance(s.targets[0], ast.Name)):
+                    continue
+                t = s.targets[0].id
+                if t in params or loads.get(t, 0) != 1 or stores.get(t, 0) != 1:
+                    continue
+                if any(isinstance(x, (ast.Yield, ast.YieldFrom, ast.NamedExpr, ast.Starred)) for x in ast.walk(s.value)):
+                    continue
+                from .dataflow import _is_state_init
+
+                if _is_state_init(s.value):
+                    continue
+                ok = None
+                for h in _header_exprs(nxt):
+                    for x, cond in _eval_order(h):
+                        if isinstance(x, ast.Name) and x.id == t and isinstance(x.ctx, ast.Load):
+                            ok = (x, h) if not cond and ok is None else False
+                            break
+                        if cond and any(isinstance(y, ast.Name) and y.id == t for y in ast.walk(x)):
+                            ok = False
+                            break
+                        if not isinstance(x, _PURE_BEFORE):
+                            ok = False
+                            break
+                    if ok is not None:
+                        break
+                if not ok:
+                    continue
+                use, h = ok
+                val = s.value
+
+                class S(ast.NodeTransformer):
+                    def visit_Name(self, n):
+                        return ast.copy_location(val, n) if n is use else n
+
+                new_h = S().visit(h)
+                for field, v in ast.iter_fields(nxt):
+                    if v is h:
+                        setattr(nxt, field, new_h)
+                    elif isinstance(v, list):
+                        for j, y in enumerate(v):
+                            if y is h:
+                                v[j] = new_h
+                            elif isinstance(y, ast.withitem) and y.context_expr is h:
+                                y.context_expr = new_h
+                del body[i + 1]
+                done.append(t)
+                changed = True
+                loads[t] = 0
+        if not changed:
+            break
+    return done
